@@ -1,6 +1,7 @@
 (* C07 - The memory list is faithful and complete.  Property theorems only (completeness / shape). *)
 From Coq Require Import List NArith Arith.
 From MDW Require Import Bytes Maps GenTypes Generated ThreadList ThreadListProofs.
+From MDW Require MemWriter Writer Hoare MiniDump Image ImagePayload.
 Import ListNotations.
 Local Open Scope N_scope.
 
@@ -40,3 +41,13 @@ Theorem C07_refuted_unchecked_window :
   ip_window_unchecked [zero_page] 16 = WPanic /\ ip_window [zero_page] 16 = Some (0, 144).
 Proof. exact ip_window_unchecked_refuted. Qed.
 Print Assumptions C07_refuted_unchecked_window.
+
+(* What the memory-list stream SAYS, byte for byte: the section of the whole-image model that writes it appends exactly the
+   32-bit count and the encodings (start address, size, position) of the blocks collected while the thread list and the
+   application regions were written, in that order; its directory entry names exactly those bytes. *)
+Theorem C07_memory_list_payload : forall blocks s d s',
+  Image.sec_memory_list blocks s = MemWriter.Ok (d, s') ->
+  Writer.w_buf s' = Writer.w_buf s ++ le 4 (N.of_nat (length blocks)) ++ concat (map MiniDump.enc_memdesc blocks) /\
+  d = (MiniDump.T_MEMLIST, {| MemWriter.l_rva := MemWriter.u32 (Hoare.blen s); MemWriter.l_size := (4 + N.of_nat (Image.MEMDESC_SZ * length blocks))%N |}).
+Proof. exact ImagePayload.memory_list_payload. Qed.
+Print Assumptions C07_memory_list_payload.
